@@ -43,7 +43,7 @@ def worker_init(tier):
 
 def BOUNDS(tier):
     q = tier == "quick"
-    return dict(options=32, type_pairs="10 + 4 same-name", distances=6, occupancy_pairs=len(OCC), placements=3, partner_kinds=2,
+    return dict(options=32, type_pairs="10 + 4 same-name", distances=7, occupancy_pairs=len(OCC), placements=3, partner_kinds=2,
                 corpus_files=len(CORPUS_Q if q else CORPUS_T), corpus_variants=["identity", "compressed 0.8", "jitter 0.2"], cli_cases="every 5th lattice structure x 4 option sets")
 
 
@@ -56,8 +56,10 @@ def lattice():
     pairs = [(a, b, False) for a, b in itertools.combinations_with_replacement(types, 2)] + [(a, a, True) for a in types]
     k = 0
     for t1, t2, same in pairs:
-        for di in range(6):
+        for di in range(7):
             for oi in range(len(OCC)):
+                if di == 6 and oi > 5:
+                    continue  # coincident atoms: the first six occupancy pairs
                 for place in ("same-residue", "same-chain", "other-chain"):
                     if same and place == "same-residue":
                         continue
@@ -116,7 +118,8 @@ def make_atoms(case):
     if not case["same_name"] and n2 == n1:
         n2 = {"C": "C4'", "N": "N9", "O": "O4'", "P": "P"}[t2]
     s = R[t1] + R[t2]
-    d = [s - 0.2, s - 0.001, s + 0.001, s + 0.5 - 0.001, s + 0.5 + 0.001, s + 0.7][case["dist"]]
+    # index 6: distance exactly 0.0 - two distinct atoms at the same coordinates (superposed copies of a group), certainly a clash
+    d = [s - 0.2, s - 0.001, s + 0.001, s + 0.5 - 0.001, s + 0.5 + 0.001, s + 0.7, 0.0][case["dist"]]
     o1, o2 = OCC[case["occ"]]
     p1 = next(a for a in res1 if a[3] == n1)[4]
     cen = np.mean([a[4] for a in res1], axis=0)
